@@ -31,6 +31,18 @@ class Agg:
         self.samples = []
         self.viol = {}  # fp_key -> dict(fp, what, case, count)
         self.capped = []
+        self.known_keys = set()  # fingerprints of the open known findings (they never stop a run early)
+        self.unlisted_cases = 0  # cases (work items) that reported at least one violation outside the known findings
+        self.stopped_early = None
+
+    def enough(self):
+        """a tree in which hundreds of work items violate the property is broken all over: stop exploring, report what was found
+        (the run exits 1 anyway; the evidence says that it was cut short)"""
+        limit = int(os.environ.get("VERIF_STOP_AFTER", "400"))
+        if self.unlisted_cases >= limit:
+            self.stopped_early = dict(after_violating_work_items=self.unlisted_cases, evaluations=self.evaluations)
+            return True
+        return False
 
     def add(self, res):
         self.evaluations += res.get("n", 1)
@@ -44,6 +56,8 @@ class Agg:
             self.samples.append(jsonable(res["sample"]))
         if res.get("capped"):
             self.capped.append(jsonable(res["capped"]))
+        if any(fp_key(v["fp"]) not in self.known_keys for v in res.get("violations", [])):
+            self.unlisted_cases += 1
         for v in res.get("violations", []):
             k = fp_key(v["fp"])
             cur = self.viol.get(k)
@@ -81,6 +95,10 @@ def main(argv=None):
     mod = importlib.import_module("checks." + pid.lower())
     t0 = time.time()
     agg = Agg()
+    agg.known_keys = {fp_key(e["fingerprint"]) for e in load_known(pid) if e.get("status") == "open"}
+    from . import pool
+
+    pool.STOP = agg.enough
     info = mod.run(args.tier, args.seed, agg)  # returns dict(level, rule, bound, assumptions, extra)
     wall = time.time() - t0
 
@@ -131,7 +149,7 @@ def main(argv=None):
 
     level = info.get("level", "model_checking")
     cov = dict(
-        exhaustive=not agg.capped and info.get("exhaustive", True),
+        exhaustive=not agg.capped and not agg.stopped_early and info.get("exhaustive", True),
         bound=info.get("bound"),
         rule=info.get("rule", ""),
         evaluations=agg.evaluations,
@@ -141,6 +159,8 @@ def main(argv=None):
         known_findings_seen=[e["what"] for e, _ in known_hit.values()],
         violation_fingerprints=len(agg.viol),
     )
+    if agg.stopped_early:
+        cov["stopped_early"] = agg.stopped_early
     if agg.capped:
         cov["caps_hit"] = agg.capped[:10]
     if level == "model_checking":
